@@ -125,7 +125,7 @@ type bigFx struct {
 
 var bigCache = map[string]*bigFx{}
 
-func bigFixture(kind string, be int, curve ecc.ID) *bigFx {
+func bigFixture(w *Worker, kind string, be int, curve ecc.ID) *bigFx {
 	key := fmt.Sprintf("%s/%d/%s", kind, be, curve)
 	if f, ok := bigCache[key]; ok {
 		return f
@@ -163,6 +163,9 @@ func bigFixture(kind string, be int, curve ecc.ID) *bigFx {
 	if f.full, f.err = frontend.NewWitness(assignment, q); f.err != nil {
 		return f
 	}
+	// a system with a commitment draws a random mask while solving: both solves compared
+	// below get the same entropy
+	w.SetEntropy(0xb16a47, simrt.EntRepeat, 0)
 	sol, err := f.ccs.Solve(f.full)
 	if err != nil {
 		f.err = fmt.Errorf("solving the original large system: %w", err)
@@ -177,7 +180,7 @@ func c09Large(w *Worker, tape *simrt.Tape, o *Outcome) *Outcome {
 	kind := []string{"inputs", "table"}[tape.Choose(simrt.SWorkload, 2)]
 	be := tape.Choose(simrt.SWorkload, 2)
 	curve := w.curves()[0]
-	f := bigFixture(kind, be, curve)
+	f := bigFixture(w, kind, be, curve)
 	where := beNames[be] + ":large-" + kind
 	o.Desc = fmt.Sprintf("%s/%s large constraint system (%s)", beNames[be], curve, kind)
 	o.NonTrivial = true
@@ -210,6 +213,7 @@ func c09Large(w *Worker, tape *simrt.Tape, o *Outcome) *Outcome {
 		o.violate("reencode-differs", "reencode-differs:"+where, "re-encoding the decoded large system gives different bytes")
 		return o
 	}
+	w.SetEntropy(0xb16a47, simrt.EntRepeat, 0)
 	sol, err := fresh.Solve(f.full)
 	o.Evals++
 	if err != nil || !bytes.Equal(toBytes(sol), f.sol) {
